@@ -122,7 +122,9 @@ Definition mon_c08 (cs : list N) : list N :=
 
 (* ---------------- C12 ---------------- *)
 Record g12 := mkG12 { g_open : list N;    (* outbound QoS>0 exchanges of this connection *)
-                      g_late : list N }.  (* PUBRELs first sent on a later connection than their PUBREC (known finding F-12b) *)
+                      g_late : list N;    (* PUBRELs first sent on a later connection than their PUBREC (known finding F-12b) *)
+                      g_in : list N;
+                      g_unc : list N }.   (* exchanges that completed on this connection without ever being counted on it (F-12c) *)    (* inbound QoS>0 PUBLISH not yet answered finally by this side *)  
 
 (* a successful CONNACK establishes the connection: what is outstanding afterwards is exactly what
    is retransmitted (session present) or nothing (new session) *)
@@ -172,12 +174,18 @@ Definition judge_c12 (g : cfg) (gh : g12) (o : obs) : list N * g12 :=
                                && version_eqb (k_ver p) V50 then add_once (k_pid p) late1 else late1
                | _ => late1 end in
   let late_done := existsb (fun id => memb id late2) done in
+  (* a final acknowledgement accepted for an exchange this connection never counted: carried over a
+     reconnect without having been retransmitted (it was accepted before the session became persistent) *)
+  let unc1 := if starts || is_resend o then [] else g_unc gh in
+  let unc2 := fold_left (fun l id => if memb id open1 || memb id late2 then l else add_once id l) done unc1 in
   let v :=
     match c_send_max post with
     | Some m =>
       if negb (version_eqb (c_version post) V50) then []
       else if negb (c_send_count post =? n) then
-        (if late_done || negb (match late2 with [] => true | _ => false end) then [90; c_send_count post; n] else [1; c_send_count post; n])
+        (if late_done || negb (match late2 with [] => true | _ => false end) then [90; c_send_count post; n]
+         else if negb (match unc2 with [] => true | _ => false end) && (c_send_count post <? n) then [92; c_send_count post; n]
+         else [1; c_send_count post; n])
       else if negb (opt_eqb (vacancy post) (Some (m - n))) then [2]
       else
         (* acceptance only while fewer than M are incomplete *)
@@ -216,10 +224,32 @@ Definition judge_c12 (g : cfg) (gh : g12) (o : obs) : list N * g12 :=
       | _, _ => []
       end
     end in
-  (v2, mkG12 open3 late2).
+  (* inbound ghost: what the peer has outstanding with us — a QoS>0 PUBLISH that was not refused opens
+     an exchange; our PUBACK / PUBCOMP / error PUBREC (automatic or sent by the application) ends it;
+     the library's own set must be exactly that (it is what the quota is judged on) *)
+  let in0 := if starts then [] else g_in gh in
+  let in1 := match recv_pkt o with
+             | Some p => if (k_type p =? T_PUBLISH) && negb (k_qos p =? 0) && version_eqb (c_version pre) V50
+                            && negb (c_mps_recv pre <? k_size p) && negb (memb E_RECEIVE_MAXIMUM_EXCEEDED (errors evs))
+                         then add_once (k_pid p) in0 else in0
+             | None => in0 end in
+  let in2 := fold_left (fun l q =>
+                 if version_eqb (k_ver q) V50 &&
+                    ((k_type q =? T_PUBACK) || (k_type q =? T_PUBCOMP) || ((k_type q =? T_PUBREC) && k_rc_present q && (128 <=? k_rc q)))
+                 then remove_all (k_pid q) l else l) (sends evs) in1 in
+  let v3 :=
+    match v2 with
+    | _ :: _ => v2
+    | [] =>
+      if version_eqb (c_version post) V50 && negb (starts) then
+        if (N.of_nat (length in2) =? N.of_nat (length (c_publish_recv post))) && forallb (fun id => memb id (c_publish_recv post)) in2
+        then [] else [8; N.of_nat (length in2); N.of_nat (length (c_publish_recv post))]
+      else []
+    end in
+  (v3, mkG12 open3 late2 in2 unc2).
 
 Definition mon_c12 (cs : list N) : list N :=
   let t := dec_trace cs in
   if negb (tr_ok t) then [0; V_BADCASE]
   else if negb (tr_contract t) then []
-  else run_mon judge_c12 (tr_cfg t) (mkG12 [] []) 0 (tr_obs t).
+  else run_mon judge_c12 (tr_cfg t) (mkG12 [] [] [] []) 0 (tr_obs t).
